@@ -88,7 +88,19 @@ def redact_claims(claims: Mapping[str, object]) -> dict[str, object]:
         A new dict with the same keys, sensitive values replaced.
 
     """
-    return {k: (REDACTED if _DEFAULT_CLAIM_REDACT_RE.search(k) else v) for k, v in claims.items()}
+    return {k: (REDACTED if _DEFAULT_CLAIM_REDACT_RE.search(k) else _redact_nested(v)) for k, v in claims.items()}
+
+
+def _redact_nested(value: object) -> object:
+    """Apply the key-based redaction to objects nested inside a claim value (dicts and lists, any depth)."""
+    if isinstance(value, Mapping):
+        return {
+            k: (REDACTED if isinstance(k, str) and _DEFAULT_CLAIM_REDACT_RE.search(k) else _redact_nested(v))
+            for k, v in value.items()
+        }
+    if isinstance(value, (list, tuple)):
+        return [_redact_nested(v) for v in value]
+    return value
 
 
 def no_redaction(claims: Mapping[str, object]) -> dict[str, object]:
